@@ -47,13 +47,13 @@ CHECKS = {
    design="6/C06", note=NOTE),
  "C13": dict(
    cat="proof",
-   text="Theorems (Props/C13.v, closed): over ALL file-system states (every damaged, truncated, emptied, garbage, deleted or half-written archive is one) and all fault schedules, the PAR2 Verify model never panics; 'no repair needed' implies all protected files match the recorded length and hashes; Repair changes only protected paths and only by completed writes of data matching both recorded hashes. NOT yet proved: that the PAR2 Repair model never panics for every state (the coder path), and the PAR1 statements; these rest on the enumerated grid. "
+   text="Theorems (Props/C13.v, closed): over ALL file-system states (every damaged, truncated, emptied, garbage, deleted or half-written archive is one) and all fault schedules, the PAR2 Verify AND Repair models never panic (incl. the coder path: operands of the row reduction are well-dimensioned for every shard table, reassembly never slices out of range); 'no repair needed' implies all protected files match the recorded length and hashes; Repair changes only protected paths and only by completed writes of data matching both recorded hashes; PAR1 Verify is pure and PAR1 Repair writes only verified data. NOT proved: no-panic of the PAR1 model (rests on the enumerated PAR1 grid). "
         "Tied to the code by an ENUMERATED grid (~9500 cases per run): truncation at every packet boundary, every byte of every packet header (every byte of the index) and sampled payload offsets; every bit of magic/length and two bits per byte of the other header fields of the first packet of each type; emptied/garbage/appended/deleted files, every subset of deleted archive files, every prefix of Create's write sequence with the last file torn at and inside packet boundaries; data intact or one file missing; Verify+Repair under an address-space limit with allocation measured; predicates: no crash, usable <= present, clean => intact, only originals written; impl = model. Four crashes of the pinned tree found this way were fixed in /repo.",
    technique="Rocq proof: no-panic and truthfulness theorems quantified over all file-system states; enumerated truncation/bit-flip/interrupted-write grid as correspondence check",
    design="6/C13", note=NOTE),
  "C19": dict(
    cat="proof",
-   text="Theorems (Props/C19.v, closed): for every archive state the PAR2 Verify model never panics and Repair never writes data that fails the archive's own file hashes, length included (C02's theorem). NOT yet proved: no-panic of the Repair model's coder path for every state; the allocation bound is measured, not proved. "
+   text="Theorems (Props/C19.v, closed): for every archive state the PAR2 Verify model never panics and Repair never writes data that fails the archive's own file hashes, length included (C02's theorem). PAR2 Repair never panics for any archive, state and schedule. The allocation bound is measured, not proved; no-panic of the PAR1 model rests on the PAR1 grid. "
         "Tied to the code by an ENUMERATED re-checksummed grid (~580 cases): an independent writer emits sets whose declared fields are overridden BEFORE ids, set id and packet hashes are computed - slice size and recovery count at boundary values up to 2^64-1 (with and without consistent checksum lists), unsorted/duplicate/unknown ids, truncated main body, file lengths at boundaries and slice multiples, wrong hashes, hostile names, checksum lists too short/long, exponents 0..65536/2^31/2^32-1, wrong block sizes, duplicate/wrong recovery data, recovery packet in the index, removal/duplication of every packet type (thorough: pairs) x four data states; no crash, bounded allocation (bytes allocated measured per case), nothing but protected content written; impl = model. Five crashes of the pinned tree were fixed; the coder sized by the highest exponent is a recorded known finding.",
    technique="Rocq proof: hash-guarded writes for all states; enumerated re-checksummed field-boundary grid with allocation measurement as correspondence check",
    design="6/C19", note=NOTE + "Exponents above 4000 and accepted slice sizes above 64 KiB run on the implementation only (the extracted model's list-based tables make them too slow)."),
